@@ -7,6 +7,9 @@ CLAIMED = {
  "C05": ("model_checking", "bounded symbolic execution of the real loaders (go/ssa -> SMT-LIB2 bit-vectors, z3)",
          "Every metadata field is proved equal to the container specification's bytes by an unsat verdict over all values of every symbolic header/payload byte of the skeleton files; bounded by skeleton shape (<=2 ancillary chunks/segments, payloads <=5 bytes).",
          "Trusted: go/ssa construction, the gosym executor (cross-validated natively on sampled path models each run), z3 4.8.12. Oracle is the PNG/JPEG/RIFF-WebP byte layout written in the harness, not DecodeConfig.", "DESIGN.md 5 C05"),
+ "C06": ("model_checking", "bounded symbolic execution of the loaders on ICC-carrying skeletons with symbolic chunk numbers/totals/flags/payload bytes",
+         "Returned profile bytes are proved equal, byte for byte as bit-vector terms, to the specification-side assembly (ICC.1 Annex B order for JPEG with all chunk orders and damage classes as models of one harness; WebP ICCP payload incl. sizes around 4096; the exact compressed bytes handed to inflate for PNG), damaged sets give (nil,error) with metadata, absence gives (nil,nil).",
+         "Trusted: executor, z3; inflate is a stub (what goes in and that its output is returned untouched is what is proved). Bounds: <=3 (thorough 4) JPEG chunks, listed sizes.", "DESIGN.md 5 C06"),
  "C07": ("model_checking", "bounded symbolic execution of the four Load functions with a symbolic-content, scheduled, fault-injecting source (go/ssa -> SMT-LIB2, z3)",
          "On every feasible path over N arbitrary symbolic bytes (every truncation, every fault position, three delivery schedules) and over every truncation of skeleton files, the drained stream equals the delivered source bytes and surfaces the injected error; bounded by N (PNG 28, JPEG 14, WebP 40, auto 12 in quick).",
          "Trusted: executor (cross-validated natively on sampled paths), z3; zlib replaced by a nondeterministic stub (inflate not modelled); path feasibility is the solver's, byte equality is term identity.", "DESIGN.md 5 C07"),
